@@ -42,6 +42,7 @@ THEOREMS = [P + n for n in [
     "pushdown_dnf_common_predicate", "dnf_implies_disjunction_of_common", "pushdown_dnf_single_branch_unsound",
     "pushdown_projections_preserves", "pushdown_projections_needs_no_distinct", "projection_guards_present",
     "append_cte_keeps_scoping", "eliminate_subqueries_forward_reference_witness",
+    "conj3_eq_of_same_values", "uniq_sort_sound_of_key_injective", "uniq_sort_key_collision_witness", "gen_handlers_cover_all_args",
     "rename_with_fresh_cache_renames_all", "rename_all_leaves_no_old", "rename_with_stale_cache_witness",
     "merge_cache_clears_present",
     "decorrelate_scalar_aggregate", "decorrelate_constant_zero_fallback_unsound", "decorrelate_null_of_existing_group_unsound",
@@ -306,6 +307,52 @@ def translate(chk: Check) -> str:
             got = "none"
         cache_clears.append((fname, got))
 
+    # simplify.Gen (the key generator of uniq_sort): which args of its expression class a handler leaves out
+    gen_missing = []
+    try:
+        from sqlglot import exp as _exp
+
+        sim = src("simplify.py")
+        gen_cls = next((n for n in sim.body if isinstance(n, ast.ClassDef) and n.name == "Gen"), None)
+        bykey = {}
+        for nm in dir(_exp):
+            c = getattr(_exp, nm)
+            if isinstance(c, type) and issubclass(c, _exp.Expr) and getattr(c, "key", None):
+                bykey.setdefault(c.key, c)
+        PROP = {"parts": ["this", "table", "db", "catalog"], "columns": ["columns"], "quoted": ["quoted"], "is_string": ["is_string"],
+                "name": ["this"], "this": ["this"], "expression": ["expression"], "expressions": ["expressions"]}
+        if gen_cls is None:
+            changed("simplify.Gen not found")
+        else:
+            for fn in gen_cls.body:
+                if isinstance(fn, ast.FunctionDef) and fn.name.endswith("_sql") and not fn.name.startswith("_"):
+                    cls = bykey.get(fn.name[:-4])
+                    if cls is None:
+                        changed(f"simplify.Gen.{fn.name}: no expression class with that key")
+                        continue
+                    args = list(cls.arg_types)
+                    seen = set()
+                    for n in ast.walk(fn):
+                        if isinstance(n, ast.Attribute) and isinstance(n.value, ast.Name) and n.value.id == "e" and n.attr in PROP:
+                            seen.update(PROP[n.attr])
+                        if isinstance(n, ast.Call):
+                            f_ = ast.unparse(n.func)
+                            if f_ == "e.args.get" and n.args and isinstance(n.args[0], ast.Constant):
+                                seen.add(n.args[0].value)
+                            elif f_ == "self._binary":
+                                seen.update(["this", "expression"])
+                            elif f_ == "self._unary":
+                                seen.add("this")
+                            elif f_ == "self._args":
+                                k_ = n.args[1].value if len(n.args) > 1 and isinstance(n.args[1], ast.Constant) else 0
+                                seen.update(args[k_:])
+                    miss = [a for a in args if a not in seen]
+                    if miss:
+                        gen_missing.append((fn.name[:-4], miss))
+    except Exception as e:  # noqa
+        changed(f"simplify.Gen coverage table: {e}")
+    chk.cov["simplify_gen_missing_args"] = gen_missing
+
     # optimize_joins._is_reorderable
     ir = _fn(src("optimize_joins.py"), "_is_reorderable")
     ret = ast.unparse(ir.body[-1]) if ir is not None else ""
@@ -347,6 +394,7 @@ def translate(chk: Check) -> str:
         f"def reorderRequiresNoSide : Bool := {b(reorder)}",
         "def projKeepAll : List ProjAtom := " + lst(proj_atoms),
         "def mergeCacheClears : List (String × String) := " + lst('("%s", "%s")' % c for c in cache_clears),
+        "def genHandlerMissing : List (String × List String) := " + lst('("%s", %s)' % (k_, lst('"%s"' % a for a in m_)) for k_, m_ in gen_missing),
         "end SqlglotModel.Generated.C03",
     ]
     return "\n".join(L) + "\n"
@@ -978,7 +1026,21 @@ class QGen:
         shape = r.random()
         where = f" WHERE {self.pred(aliases)}" if r.random() < 0.65 else ""
         sub = r.random()
-        if sub < 0.12:
+        if sub < 0.05:
+            # >= 2 subquery predicates over the SAME left operand that differ only in the subquery (uniq_sort keys)
+            col = f"p.{r.choice('ab')}"
+            k_ = r.random()
+            parts = []
+            for _ in range(r.randint(2, 3)):
+                body = self.set_subquery("p", r.random() < 0.2)
+                if k_ < 0.6:
+                    parts.append(f"{col} {r.choice(['NOT ', '', 'NOT '])}IN ({body})")
+                elif k_ < 0.8:
+                    parts.append(f"{r.choice(['', 'NOT '])}EXISTS ({body})")
+                else:
+                    parts.append(f"{col} {r.choice(CMP)} (SELECT {r.choice(['MAX', 'MIN', 'COUNT'])}(z.{r.choice('ab')}) FROM z WHERE z.{r.choice('ab')} {r.choice(CMP)} {r.choice([0, 1, 2])})")
+            where += (" AND " if where else " WHERE ") + "(" + r.choice([" AND ", " AND ", " OR "]).join(parts) + ")"
+        elif sub < 0.12:
             where += (" AND " if where else " WHERE ") + self.in_predicate("p")
         elif sub < 0.2:
             where += (" AND " if where else " WHERE ") + self.exists_predicate("p")
@@ -1094,6 +1156,18 @@ WITNESSES = [
     ("SELECT x.a AS xa, y.a AS ya FROM x LEFT JOIN y ON x.a = y.a JOIN z ON y.a = z.a", {"x": [[1, 1]], "y": [], "z": [[1, 1]]}),
     ("SELECT x.a AS xa FROM x RIGHT JOIN (SELECT a, b FROM y) AS y ON x.a = y.a RIGHT JOIN (SELECT a, b FROM z) AS z ON y.a = z.a WHERE y.b > 1", {"x": [], "y": [], "z": [[1, 1]]}),
     ("SELECT p.a AS pa FROM (SELECT 1 AS a FROM z) AS p FULL JOIN x ON p.a = x.b", {"x": [[1, 2]], "y": [], "z": []}),
+    # leads verified on the clean tree (each has a known_pending entry)
+    ("SELECT x.a AS xa FROM x WHERE EXISTS (SELECT y.a FROM y WHERE y.a = x.a UNION ALL SELECT z.a FROM z WHERE z.a = x.a)", {"x": [[1, 1], [2, 2], [3, None]], "y": [[1, 1], [2, 5]], "z": [[3, 3], [2, 2]]}),
+    ("SELECT x.a AS xa FROM x WHERE x.a IN (SELECT y.a FROM y WHERE y.b = x.b UNION SELECT z.a FROM z WHERE z.b = x.b)", {"x": [[1, 1], [2, 2], [3, None]], "y": [[1, 1], [2, 5]], "z": [[3, 3], [2, 2]]}),
+    ("SELECT COUNT(*) AS c FROM (SELECT SUM(x.a) OVER () AS r FROM x) AS p", {"x": [[1, 1], [2, 2], [3, None]], "y": [], "z": []}),
+    ("SELECT p.a AS pa FROM (SELECT x.a AS a, x.b AS b FROM x UNION ALL (SELECT y.a, y.b FROM y UNION SELECT z.a, z.b FROM z)) AS p", {"x": [[1, 1]], "y": [[1, 1], [2, 5]], "z": [[2, 5]]}),
+    ("SELECT p.a AS pa FROM (SELECT x.a AS a, x.b AS b FROM x) AS p CROSS JOIN y WHERE (y.b * p.a) IS NULL OR p.a BETWEEN 0 AND 0", {"x": [[None, 7], [1, 1]], "y": [[1, 1]], "z": []}),
+    ("WITH c1 AS (SELECT z.a AS a, z.b AS b FROM z UNION ALL SELECT x.a, x.b FROM x) SELECT p.b AS c1 FROM x AS p LEFT JOIN c1 AS q ON p.b = q.b", {"x": [[3, 4]], "y": [], "z": [[1, 4]]}),
+    # several subquery predicates with one left operand (uniq_sort must not merge them)
+    ("SELECT x.a AS xa FROM x WHERE x.a NOT IN (SELECT y.a FROM y WHERE y.a IS NOT NULL) AND x.a NOT IN (SELECT z.a FROM z WHERE z.a IS NOT NULL)", {"x": [[1, 1], [2, 2], [3, 3]], "y": [[1, 1]], "z": [[2, 2]]}),
+    ("SELECT x.a AS xa FROM x WHERE x.a IN (SELECT y.a FROM y) AND x.a IN (SELECT z.a FROM z)", {"x": [[1, 1], [2, 2], [3, 3]], "y": [[1, 1], [2, 1]], "z": [[2, 2], [3, 3]]}),
+    ("SELECT x.a AS xa FROM x WHERE x.a IN (SELECT y.a FROM y) OR x.a IN (SELECT z.a FROM z)", {"x": [[1, 1], [2, 2], [3, 3]], "y": [[1, 1]], "z": [[2, 2]]}),
+    ("SELECT x.a AS xa FROM x WHERE x.a > (SELECT MAX(y.a) FROM y) AND x.a > (SELECT MAX(z.a) FROM z)", {"x": [[1, 1], [2, 2], [3, 3]], "y": [[1, 1]], "z": [[2, 2]]}),
     # nested derived tables whose innermost table name collides with an outer source (rename must carry the columns)
     ("SELECT m.a AS ma, x.b AS xb FROM (SELECT i.a AS a FROM (SELECT x.a AS a FROM x WHERE x.b = 2) AS i) AS m JOIN x ON m.a = x.b", {"x": [[1, 1], [1, 2], [2, None], [None, 2], [3, 3]], "y": [], "z": []}),
     ("SELECT m.a AS ma, x.b AS xb FROM x JOIN (SELECT i.a AS a FROM (SELECT x.a AS a FROM x WHERE x.b = 2) AS i) AS m ON m.a = x.b", {"x": [[1, 1], [1, 2], [2, None], [None, 2], [3, 3]], "y": [], "z": []}),
